@@ -466,6 +466,8 @@ func (c *Ctx) slotAssignments(f *Fn, cf *funcCFG) {
 			}
 			if g := emptyTest(upd, holder); g != "" {
 				r.Ok("C03-HAS-BEFORE-SET", okey, "stored inside Update(k, closure); `if "+g+" { return error }` on GetValue(k) of the same map and key dominates the Update", c.pos(as.Pos()))
+			} else if ok, _ := c.slotGuardedE8(f, fld.Name()); ok {
+				r.Ok("C03-HAS-BEFORE-SET", okey, "by abstract evaluation (helpers inlined): every successful path that stores into the slot has found that very location empty before", c.pos(as.Pos()))
 			} else {
 				r.Bad("C03-HAS-BEFORE-SET", okey, "a single-valued slot is overwritten inside Update(k, ...) without a dominating 'already set' test on the value of the same key: a second directive of this kind silently replaces the first", c.pos(as.Pos()))
 			}
